@@ -46,6 +46,7 @@ func NewWorld(rc *RunCtx, faults sim.Faults) *World {
 	rc.Sched = s
 	w := &World{RC: rc, S: s, T: rc.Tape, Start: time.Now()}
 	w.Net = sim.NewNet(s, rc.Tape)
+	w.Net.Debug = os.Getenv("VERIF_DEBUG") != ""
 	w.Srv = sim.NewLFSServer(sim.TapeChooser{T: rc.Tape}, faults)
 	w.Srv.Suppress = rc.Opts.Suppress
 	w.Srv.Now = func() time.Duration { return time.Since(w.Start) }
